@@ -33,8 +33,9 @@ class TriangularLinearOperator(LinearOperator, _TriangularLinearOperatorBase):
     """
 
     def __init__(self, tensor: Allsor, upper: bool = False) -> None:
-        if isinstance(tensor, TriangularLinearOperator):
+        if isinstance(tensor, TriangularLinearOperator) and hasattr(tensor, "_tensor"):
             # this is a null-op, we can just use underlying tensor directly.
+            # (DiagLinearOperator is a TriangularLinearOperator without `_tensor`: keep it as the wrapped operator)
             tensor = tensor._tensor
             # TODO: Use a metaclass to create a DiagLinearOperator if tensor is diagonal
         elif isinstance(tensor, BatchRepeatLinearOperator):
